@@ -181,6 +181,11 @@ def num_docs():
         out.append(('act', 'PART %s - General\n  SEC 1\n    text\n' % n))
         out.append(('statement', 'ITEMS\n  ITEM %s\n    x\n' % n))
         out.append(('debate', 'DEBATESECTION %s - Questions\n  SPEECH\n    FROM a\n    words\n' % n))
+    # two blanks in a row (after a full stop, from a tab) wherever text or an attribute value is kept as written: image descriptions and
+    # sources, link texts, headings, subheadings, crossheadings, cells, list items, remarks, attribute values
+    for root in ('act', 'doc', 'statement'):
+        out.append((root, 'SEC 1 - Maps.  And plans\n  SUBHEADING Two.  Blanks\n  The district.  See {{IMG /media/map.png Figure 1.  Map of the district}} and {{>#sec_2 section 2.  Below}}.\n'
+                          '  CROSSHEADING Part.  One\n  TABLE\n    TR\n      TC\n        a.  b\n  ITEMS\n    ITEM (a) - h.  h\n      x.  y\n  {{*[note.  amended]}} {{abbr{title Full.  Name} FN}} **b.  b**\n'))
     return out
 
 def empty_docs():
